@@ -42,7 +42,8 @@ def gen_dataset(r, dmax=6, kind=None, tuples=True, unknown=False, big=False, tin
     desc["perm"] = 1
   if r.random() < 0.35:
     desc["chunk_ids"] = r.choice(["onebased", "gaps", "shuffled", "gaps_shuffled"])
-  if int_rows_p and (kind or "blobs") == "blobs" and r.random() < int_rows_p:
+  if int_rows_p and (kind or "blobs") == "blobs" and not desc.get("global_scale") and r.random() < int_rows_p:
+    # (never together with a tiny global scale: rounding would collapse every point onto 0)
     desc["int_rows"] = r.choice([0.3, 0.6])
   return desc
 
